@@ -1094,6 +1094,82 @@ fn op_muxsweep(c: &Value) -> Value {
 }
 
 // ---------------------------------------------------------------------------
+// frame::mux_recv_proto on a real transient stream between two real multiplexers
+
+/// Client mux (connect side) and server mux (accept side) over an in-memory pipe; the client opens
+/// a transient stream, writes `hex`, and closes its write half (end of stream); the server runs
+/// `mux_recv_proto::<time::Duration>` with limit `max` on its read half.
+fn op_muxframe(c: &Value) -> Value {
+    use net::verif::mux::{VConfig, VMux, VQueue};
+    let max = u64_of(&c["max"]) as usize;
+    let data = unhex(&c["hex"]);
+    let wfs = c["wfs"].as_u64().unwrap_or(16 << 10);
+    let rfs = c["rfs"].as_u64().unwrap_or(16 << 10);
+    let want = if data.len() >= 4 {
+        u32::from_le_bytes([data[0], data[1], data[2], data[3]]) as usize
+    } else {
+        0
+    };
+    let body_class = if data.len() >= 4 && data.len() - 4 >= want {
+        let b = data[4..4 + want].to_vec();
+        match catch(move || zp::decode::<time::Duration>(&b).is_ok()) {
+            Ok(true) => json!(0),
+            Ok(false) => json!(1),
+            Err(_) => json!(9),
+        }
+    } else {
+        Value::Null
+    };
+    let r = rt();
+    let out = catch(std::panic::AssertUnwindSafe(|| {
+        r.block_on(async {
+            let ctx = &ctx::root();
+            let cfg = || VConfig {
+                read_frame_size: rfs,
+                read_buffer_size: 64 << 10,
+                read_frame_count: 100,
+                write_frame_size: wfs,
+            };
+            let qc = VQueue::new(ctx, 1, limiter::Rate::INF);
+            let qa = VQueue::new(ctx, 1, limiter::Rate::INF);
+            let client = VMux::new(cfg(), vec![], vec![(0, qc.clone())]);
+            let server = VMux::new(cfg(), vec![(0, qa.clone())], vec![]);
+            let (ta, tb) = tokio::io::duplex(1 << 20);
+            let res: anyhow::Result<(Result<usize, String>, usize)> =
+                zksync_concurrency::scope::run!(ctx, |ctx, s| async {
+                    s.spawn_bg(async {
+                        let _ = client.run(ctx, ta).await;
+                        Ok(())
+                    });
+                    s.spawn_bg(async {
+                        let _ = server.run(ctx, tb).await;
+                        Ok(())
+                    });
+                    let (sc, ss) = tokio::join!(qc.open(ctx), qa.open(ctx));
+                    let (sc, mut ss) = (sc?, ss?);
+                    let net::verif::mux::VStream { read: _cr, write: mut cw } = sc;
+                    cw.write_all(ctx, &data).await?;
+                    cw.flush(ctx).await?;
+                    drop(cw); // end of stream
+                    let base = CUR.load(Relaxed);
+                    PEAK.store(base, Relaxed);
+                    let r = ss.read.recv_proto_named(ctx, "std.Duration", max).await;
+                    let peak = PEAK.load(Relaxed).saturating_sub(base);
+                    Ok((r.map_err(|e| format!("{e:#}")), peak))
+                })
+                .await;
+            res
+        })
+    }));
+    match out {
+        Err(m) => json!({"res": {"panic": m}, "body": body_class}),
+        Ok(Err(e)) => json!({"res": {"setup_err": format!("{e:#}")}, "body": body_class}),
+        Ok(Ok((Ok(n), peak))) => json!({"res": {"ok": n}, "peak": peak, "body": body_class}),
+        Ok(Ok((Err(e), peak))) => json!({"res": {"err": e}, "peak": peak, "body": body_class}),
+    }
+}
+
+// ---------------------------------------------------------------------------
 // noise: attacker bytes before and after the handshake
 
 fn op_noise(c: &Value) -> Value {
@@ -1223,6 +1299,7 @@ fn main() {
             "frame" => op_frame(&c),
             "mux" => op_mux(&c),
             "muxsweep" => op_muxsweep(&c),
+            "muxframe" => op_muxframe(&c),
             "noise" => op_noise(&c),
             "noise_transport" => op_noise_transport(&c),
             o => json!({"unknown_op": o}),
